@@ -735,6 +735,13 @@ class Ctx(object):
     def flag(self, name):
         return bool(self.bool(name))
 
+    def nondet(self, what="nd"):
+        """environment nondeterminism (e.g. tie order of an unstable sort): a fresh
+        unconstrained Bool, forked on"""
+        self._nd = getattr(self, "_nd", 0) + 1
+        v = z3.Bool("nondet!%s!%d" % (what, self.fresh_id()))
+        return self.branch(v)
+
     # -- path condition ---------------------------------------------------------
     def _assume_t(self, t):
         self.pc.append(t)
